@@ -78,12 +78,25 @@ fn check_pair(a: &Dec, b: &Dec, case: &Case, ctx: &mut Ctx) {
         let mn = std::cmp::min(x.clone(), y.clone());
         let omx = Ord::max(&x, &y).clone();
         let omn = Ord::min(&x, &y).clone();
-        (eq, ne, lt, le, gt, ge, c, pc, req, req2, rc, rpc, rlt, rle, mx, mn, omx, omn)
+        // transformed reference views: |a| vs |b|, -a vs -b, |a| vs a
+        let (ax, ay, nx, ny) = (rx.abs(), ry.abs(), -rx, -ry);
+        let tr = (ax == ay, ax.cmp(&ay), nx == ny, nx.cmp(&ny), ax == rx, ax.cmp(&rx), (-nx) == rx, (-nx).cmp(&rx));
+        (eq, ne, lt, le, gt, ge, c, pc, req, req2, rc, rpc, rlt, rle, mx, mn, omx, omn, tr)
     });
-    ctx.more_evals(17);
+    ctx.more_evals(25);
     match r {
         Err(p) => ctx.fail("compare/panic", case, format!("comparison panicked: {}", p)),
-        Ok((eq, ne, lt, le, gt, ge, c, pc, req, req2, rc, rpc, rlt, rle, mx, mn, omx, omn)) => {
+        Ok((eq, ne, lt, le, gt, ge, c, pc, req, req2, rc, rpc, rlt, rle, mx, mn, omx, omn, tr)) => {
+            {
+                let absd = |d: &Dec| Dec::new(gen::abs(&d.n), d.s);
+                let w_abs = model::cmp_dec(&absd(a), &absd(b));
+                let w_neg = model::cmp_dec(&a.neg(), &b.neg());
+                let w_self = model::cmp_dec(&absd(a), a);
+                let ok = tr.0 == (w_abs == Ordering::Equal) && tr.1 == w_abs && tr.2 == (w_neg == Ordering::Equal) && tr.3 == w_neg
+                    && tr.4 == (w_self == Ordering::Equal) && tr.5 == w_self && tr.6 && tr.7 == Ordering::Equal;
+                ctx.check(ok, "ref-transformed/wrong", case, || format!("comparisons of abs()/neg() reference views disagree with the model: |a|==|b| {} cmp {:?} (want {:?}); -a==-b {} cmp {:?} (want {:?}); |a|==a {} cmp {:?} (want {:?}); -(-a)==a {} cmp {:?} (a={}, b={})",
+                    tr.0, tr.1, w_abs, tr.2, tr.3, w_neg, tr.4, tr.5, w_self, tr.6, tr.7, a.tok(), b.tok()));
+            }
             ctx.out(&format!("{}{}{}{}{}{}{}{:?}{}{}{}{:?}{}{}", eq, ne, lt, le, gt, ge, ord_name(c), pc, req, req2, ord_name(rc), rpc, rlt, rle));
             let we = want == Ordering::Equal;
             let d = |what: &str, got: String, wanted: String| format!("{}: got {} want {} (a={}, b={})", what, got, wanted, a.tok(), b.tok());
